@@ -175,8 +175,18 @@ pub struct TableKB {
     pub table: Arc<Vec<(u64, u64)>>,
 }
 
+/// logical keys from here on are not in the table: each gets an index hash of its own
+pub const WIDE: u64 = 1 << 40;
+
+pub fn wide_index(k: u64) -> (u64, u64) {
+    (((k ^ 0xD6E8_FEB8_6659_FD93).wrapping_mul(0x9E37_79B9_7F4A_7C15)) | (1 << 63), 0)
+}
+
 impl TableKB {
     pub fn map(&self, k: u64) -> (u64, u64) {
+        if k >= WIDE {
+            return wide_index(k);
+        }
         self.table[(k as usize) % self.table.len()]
     }
 }
